@@ -4,7 +4,7 @@
    and of updater.go (loadInitial, parseHostFile).  Definitions only.
 
    The Go code works on *strings*: keys are presentation-form names, the
-   hierarchy walk cuts the string after every '.' byte.  The model does the
+   hierarchy walk cuts the string after every unescaped '.' byte.  The model does the
    same on byte lists (str = list N); the label-level reading of the
    property lives in Spec.v and is related to this model in Proofs*.v.
 
@@ -63,12 +63,17 @@ Definition is_fqdn (s : str) : bool :=
 Definition fqdn (s : str) : str := if is_fqdn s then s else s ++ [c_dot].
 Definition canonical (s : str) : str := map lower (fqdn s).
 
-(* ---- the hierarchy walk: every key[offset:] where offset follows a '.' and
-   offset < len(key) *)
+(* ---- the hierarchy walk: every key[offset:] where offset follows a '.' that
+   separates two labels and offset < len(key).  nextDot: a backslash escapes
+   the byte after it ("\." is a dot inside a label, "\DDD" any byte), so that
+   byte is skipped. *)
 Fixpoint dot_suffixes (s : str) : list str :=
   match s with
   | [] => []
-  | c :: r => if c =? c_dot then r :: dot_suffixes r else dot_suffixes r
+  | c :: r =>
+      if c =? c_bs then match r with [] => [] | _ :: r' => dot_suffixes r' end
+      else if c =? c_dot then r :: dot_suffixes r
+      else dot_suffixes r
   end.
 Definition nonempty (s : str) : bool := negb (is_nil s).
 Definition cands (s : str) : list str := filter nonempty (dot_suffixes s).
@@ -94,10 +99,19 @@ Definition set_wildp : str := hd [] set_wild_prefix_strs.
 Definition remove_wildp : str := hd [] remove_wild_prefix_strs.
 Definition persist_wildp : str := hd [] persist_wild_prefix_strs.
 
+(* unicode.IsSpace on ASCII *)
+Definition is_space (c : N) : bool :=
+  (c =? 9) || (c =? 10) || (c =? 11) || (c =? 12) || (c =? 13) || (c =? 32).
+(* persistable: no '#' (as the source spells it) and no white space *)
+Definition persist_comment_char : N := hd 0 (hd [] persistable_comment_strs).
+Definition persistable (key : str) : bool :=
+  forallb (fun c => negb (c =? persist_comment_char) && negb (is_space c)) key.
+
 (* setLocked *)
 Definition set_locked (key0 : str) (b : bl) : bool * bl :=
   let key := canonical key0 in
   if match_hierarchy key (bw b) then (false, b)
+  else if negb (persistable key) then (false, b)
   else if has_prefix set_wildp key
        then (true, mk_bl (bm b) (add (skipn (N.to_nat set_wild_skip) key) (bwild b)) (bw b))
        else (true, mk_bl (add key (bm b)) (bwild b) (bw b)).
@@ -252,9 +266,6 @@ Fixpoint split_lines_aux (s : str) (cur : str) : list str :=
   end.
 Definition split_lines (s : str) : list str := split_lines_aux s [].
 
-(* unicode.IsSpace on ASCII *)
-Definition is_space (c : N) : bool :=
-  (c =? 9) || (c =? 10) || (c =? 11) || (c =? 12) || (c =? 13) || (c =? 32).
 Fixpoint trim_left (s : str) : str :=
   match s with
   | c :: r => if is_space c then trim_left r else s
@@ -314,8 +325,12 @@ Definition load_initial (whitelist blocklist : list str) (files : list str) : bl
   let b1 := fold_left (fun b e => snd (set_locked e b)) blocklist b0 in
   fold_left (fun b f => parse_bytes f b) files b1.
 
+(* what a start reads: loadInitial first deletes every local.tmp.* (leftovers of
+   interrupted persists) and readBlocklists skips such names, so only `local`
+   (and other lists, not modelled in [disk]) is parsed *)
 Definition disk_files (d : disk) : list str :=
-  match d_local d with Some f => f :: d_temps d | None => d_temps d end.
+  match d_local d with Some f => [f] | None => [] end.
+Definition after_restart (d : disk) : disk := mk_disk (d_local d) [].
 
 (* ---- ServeDNS *)
 (* owner, type, ttl, data (A/AAAA: the address as a number; SOA: MINIMUM) *)
